@@ -135,6 +135,8 @@ def corpus_cases():
     yield C(max_line=20, max_field=100), b"GET / HTTP/1.1\r\nHost: x\r\n\r\nGET /" + b"a" * 30 + b" HTTP/1.1\r\nHost: x\r\n\r\n", "F1-pipeline"
     yield C(), b"GET http://[::1 HTTP/1.1\r\nHost: x\r\n\r\n", "F5"
     yield C(response=True, lax=True), b"HTTP/1.1 200 OK\r\nTransfer-Encoding: chun\xe2\x84\xaaed\r\n\r\n3\r\nabc\r\n0\r\n\r\n", "F13-kelvin"
+    yield C(response=True, lax=True), b"HTTP/1.1 200 OK\r\nTransfer-Encoding: chunked\r\n\r\n3\r\nabc\r\n0\n\rX: y\r\n\r\n", "lax-lfcr-before-trailer"
+    yield C(response=True, lax=True), b"HTTP/1.1 200 OK\nTransfer-Encoding: chunked\n\n3\nabc\n\r0\n\r\n", "lax-lfcr-2"
 
 
 def check(ctx):
